@@ -9,7 +9,10 @@ if [ -d tools/gofacts ]; then
   (cd tools/gofacts && go build -o ../../build/gofacts . && ../../build/gofacts -repo /repo -out ../../lean/TeleportModel/Generated -json ../../build/facts.json) || echo "gofacts failed (checks will report it)"
 fi
 # Lean: models, proofs, driver
-python3 tools/genmain.py; (cd lean && lake build) || echo "lake build failed (checks will report it)"
+python3 tools/genmain.py
+(cd lean && lake build) || echo "lake build of the whole library failed (the affected checks will report it)"
+# one driver executable per property (independent targets: one failing does not stop the others)
+for d in $(ls lean/TeleportModel/Driver | sed -n 's/^\(C[0-9]*\)\.lean$/\1/p'); do (cd lean && lake build tpmodel_$d >/dev/null 2>&1) || echo "tpmodel_$d failed to build"; done
 # Go harness against /repo's working tree (warms the build cache)
 cp /repo/go.sum harness/go.sum
 (cd harness && for t in $(ls ../props | sed -n "s/^\(C[0-9]*\)\.json$/\1/p"); do lt=$(echo $t | tr A-Z a-z); go test -c -tags "verif $lt" -o ../build/harness.$t.test . ; done) || echo "harness build failed (checks will report it)"
